@@ -98,6 +98,11 @@ def Enabled (d : Disk) : Op → Bool
   | .unlock => d.locked
   | .putNames _ => d.locked
 
+/-- run, failing (`none`) at the first operation whose transport call would raise -/
+def runE (d : Disk) : List Op → Option Disk
+  | [] => some d
+  | op :: rest => if Enabled d op then runE (step d op) rest else none
+
 /-! ## Packs -/
 
 /-- index suffixes in the order `NewPack.finish` writes them -/
